@@ -3,6 +3,7 @@ package main
 import (
 	"fmt"
 	"go/ast"
+	"go/constant"
 	"go/token"
 	"go/types"
 	"sort"
@@ -406,6 +407,82 @@ func ruleInput(c *Ctx) {
 			return true
 		})
 		c.check(store != token.NoPos && ret != token.NoPos && store < ret, "exit:store-then-raise", cc.Pos(), "exit <value> stores the status, then raises the exit sentinel", "the ExitStatus handler does not store the status before raising errExit")
+	}
+
+	// EXIT, compiler side: the plain Exit opcode (which leaves the stored status alone) is emitted only for an exit
+	// statement without a status expression; `exit <expr>` always goes through ExitStatus, whatever the expression
+	{
+		cpkg := c.ssaPkg("internal/compiler")
+		exitVal := int64(-1)
+		for _, k := range c.constsOfType("internal/compiler", "Opcode") {
+			if k.Name() == "Exit" {
+				exitVal, _ = constant.Int64Val(k.Val())
+			}
+		}
+		nExit, bad := 0, token.NoPos
+		anyBad := false
+		if cpkg != nil && exitVal >= 0 {
+			for _, fn := range c.srcFuncs("internal/compiler") {
+				if fn.Name() == "String" || fn.Signature.Recv() == nil {
+					continue
+				}
+				for _, b := range fn.Blocks {
+					for _, in := range b.Instrs {
+						st, ok := in.(*ssa.Store)
+						if !ok {
+							continue
+						}
+						k, ok := st.Val.(*ssa.Const)
+						if !ok || k.Value == nil || !isNamed(k.Type(), modPath+"/internal/compiler", "Opcode") {
+							continue
+						}
+						if v, ok := constant.Int64Val(k.Value); !ok || v != exitVal {
+							continue
+						}
+						if _, isIA := st.Addr.(*ssa.IndexAddr); !isIA {
+							continue
+						}
+						nExit++
+						// dominated by the "Status == nil" edge of a test of the statement's Status field
+						guarded := false
+						for _, d := range fn.Blocks {
+							if len(d.Instrs) == 0 || !d.Dominates(b) || d == b {
+								continue
+							}
+							iff, ok := d.Instrs[len(d.Instrs)-1].(*ssa.If)
+							if !ok {
+								continue
+							}
+							bo, ok := iff.Cond.(*ssa.BinOp)
+							if !ok || (bo.Op != token.EQL && bo.Op != token.NEQ) {
+								continue
+							}
+							isStatus := false
+							for _, side := range []ssa.Value{bo.X, bo.Y} {
+								if f, _ := loadedField(side); f != nil && f.Name() == "Status" {
+									isStatus = true
+								}
+							}
+							if !isStatus || !(isNilConst(bo.X) || isNilConst(bo.Y)) {
+								continue
+							}
+							nilEdge := 0
+							if bo.Op == token.NEQ {
+								nilEdge = 1
+							}
+							if !reachableAvoiding(d.Succs[1-nilEdge], d)[b] {
+								guarded = true
+							}
+						}
+						if !guarded {
+							anyBad = true
+							bad = fn.Pos()
+						}
+					}
+				}
+			}
+		}
+		c.check(nExit > 0 && !anyBad, "exit:status-compiled", bad, "the plain Exit opcode is emitted only where the exit statement has no status expression", "the compiler emits the plain Exit opcode for an exit statement that has a status expression (on some path): the stored exit status is then left as it was, so `exit 0` in END no longer overrides an earlier `exit 3`")
 	}
 
 	// OPERANDS
